@@ -323,11 +323,15 @@ pub fn run_property(def: &PropDef, tier: Tier, seed: u64) -> i32 {
     // 2. enumerated / special sub-runs
     if violation.is_none() {
         if let Some(extra) = def.extra {
-            match extra(tier, seed, &mut total) {
-                Ok(complete) => exhaustive_done = complete,
-                Err(v) => {
+            match crate::engine::guard(|| extra(tier, seed, &mut total)) {
+                Ok(Ok(complete)) => exhaustive_done = complete,
+                Ok(Err(v)) => {
                     let p = write_replay(def.id, &v);
                     violation = Some((v, p));
+                }
+                Err(p) => {
+                    println!("INCONCLUSIVE property={} harness panicked in the enumerated sub-run: {}", def.id, p);
+                    return 2;
                 }
             }
         }
@@ -351,8 +355,21 @@ pub fn run_property(def: &PropDef, tier: Tier, seed: u64) -> i32 {
                         .unwrap()
                 })
                 .collect();
-            hs.into_iter().map(|h| h.join().expect("worker")).collect()
+            hs.into_iter()
+                .map(|h| match h.join() {
+                    Ok(r) => r,
+                    Err(_) => {
+                        let mut c = Ctx::default();
+                        c.count("worker_panicked", 1);
+                        (c, None)
+                    }
+                })
+                .collect()
         });
+        if results.iter().any(|(c, _)| c.counters.contains_key("worker_panicked")) {
+            println!("INCONCLUSIVE property={} a harness worker panicked outside a check (set VERIF_PANIC_TRACE=1)", def.id);
+            return 2;
+        }
         for (ctx, v) in results {
             total.merge(ctx);
             if violation.is_none() {
